@@ -11,21 +11,23 @@ ns = {}
 exec(src[src.index("TY = {"):src.index("def mtype")], ns)
 exec(src[src.index("INTT = {"):src.index("def rule_enum")], ns)
 ALPHA, layout, enum_ref, fits = ns['ALPHA'], ns['layout'], ns['enum_ref'], ns['fits']
-CT = {'S12': 'struct S12', 'A3': 'A3', 'ldouble': 'long double'}
+CT = {'S12': 'struct S12', 'A3': 'A3', 'ldouble': 'long double', 'S16': 'struct S16'}
 d = tempfile.mkdtemp(prefix='c06v')
 def layouts():
     seqs = []
     for n in (1, 2): seqs += list(itertools.product(ALPHA, repeat=n))
     random.seed(2)
     seqs += random.sample(list(itertools.product(ALPHA, repeat=3)), 3000)
-    out = ['#include <stdio.h>', '#include <string.h>', 'struct S12 { int a, b, c; }; typedef char A3[3];']; calls = []; keys = []
+    out = ['#include <stdio.h>', '#include <string.h>', 'struct S12 { int a, b, c; }; struct S16 { long x, y; }; typedef char A3[3];']; calls = []; keys = []
     for si, seq in enumerate(seqs):
         for kw in ('struct', 'union'):
             if kw == 'union' and si >= len(ALPHA) + len(ALPHA) ** 2 + 500: continue
             name = '%s%d' % (kw[0], si); body = ''; nm = []
             for mi, (ty, w, named) in enumerate(seq):
                 ct = CT.get(ty, ty)
-                if w is None: body += '%s m%d; ' % (ct, mi); nm.append(('m%d' % mi, False))
+                if w is None and not named:
+                    body += ('struct { long ax%d, ay%d; }; ' if ty == 'S16' else 'struct { int aa%d, ab%d, ac%d; }; ') % ((mi,) * (2 if ty == 'S16' else 3)); nm.append(None)
+                elif w is None: body += '%s m%d; ' % (ct, mi); nm.append(('m%d' % mi, False))
                 elif named: body += '%s m%d:%d; ' % (ct, mi, w); nm.append(('m%d' % mi, True))
                 else: body += '%s :%d; ' % (ct, w); nm.append(None)
             if all(n is None for n in nm): continue
@@ -74,7 +76,7 @@ def enums():
             bad += 1; print(c, 'clang', l, 'ref', want)
     print(len(keys), 'enums', bad, 'mismatches')
 def attrs():
-    PLAIN = [a for a in ALPHA if a[1] is None]
+    PLAIN = [a for a in ALPHA if a[1] is None and a[2]]
     cases = []
     for n in (1, 2, 3):
         for s_ in itertools.product(PLAIN, repeat=n): cases.append(('pack', tuple((t, w, nm, 0) for t, w, nm in s_)))
